@@ -27,6 +27,8 @@ type Node struct {
 	ctx    context.Context
 	cancel context.CancelFunc
 
+	KS keystore.Interface // the instance's keystore (simulated-cache mode)
+
 	baseRecv, baseIdle, baseDelivered int
 	closed                            bool
 }
@@ -50,7 +52,7 @@ var peerKeystores = map[*Peer]ds.Datastore{}
 // Start creates an instance on the peer. With dir == "" the cache is the
 // peer's SimCache and the keystore an in-memory datastore kept by the peer;
 // otherwise real LevelDB stores under dir are used.
-func (p *Peer) Start(dir string) (*Node, error) {
+func (p *Peer) Start(dir string) (n *Node, err error) {
 	ctx, cancel := context.WithCancel(context.Background())
 	opts := &orbitdb.NewOrbitDBOptions{
 		PubSub:               p.PubSub(),
@@ -71,10 +73,15 @@ func (p *Peer) Start(dir string) (*Node, error) {
 			return nil, err
 		}
 		opts.Keystore = ks
+		defer func() {
+			if n != nil {
+				n.KS = ks
+			}
+		}()
 	} else {
 		opts.Directory = &dir
 	}
-	n := &Node{P: p, Stores: map[string]*StoreRef{}, Dir: dir, ctx: ctx, cancel: cancel}
+	n = &Node{P: p, Stores: map[string]*StoreRef{}, Dir: dir, ctx: ctx, cancel: cancel}
 	p.w.mu.Lock()
 	n.baseDelivered = p.DeliveredDirect
 	p.w.mu.Unlock()
